@@ -6,13 +6,17 @@ bearing buffers and configuration only - no error, pending output, counters,
 position; D4 was `rle` in bzip2.Reader.Reset); the one carried buffer whose
 *contents* could matter, the LZ77 window, provably does not influence the next
 stream; the carried bit reader/writer are re-initialised to a state that depends on
-the new source only.  Behavioural equality of whole Readers/Writers after Reset is
-decided by the sweep (family life: dirty histories, then Reset, compared with a
+the new source only; and for flate.Reader the whole statement is a theorem about the
+Go-shaped model: from ANY earlier state, Reset followed by any Read schedule gives the
+specification's result for the new stream alone (`C14_flate_reset_fresh`, tied to /repo by
+the `flrr` correspondence lines).  Behavioural equality of the other Readers/Writers after
+Reset is decided by the sweep (family life: dirty histories, then Reset, compared with a
 fresh instance).  Property theorems only.
 -/
 import Compress.Facts.Sites
 import Compress.Proofs.Window
 import Compress.Prefix.BitReader
+import Compress.Proofs.FlateReset
 
 namespace Compress.Props.C14
 open Compress Compress.Window
@@ -35,5 +39,39 @@ theorem C14_bzip2_reader_reset :
     (Compress.Facts.resetOf "bzip2" "*Reader.Reset").map (·.carried) =
       some ["rd=zr.rd", "mtf=zr.mtf", "bwt=zr.bwt", "treeSels=zr.treeSels", "trees1D=zr.trees1D", "syms=zr.syms"] :=
   Compress.Facts.reset_carried.2.2.2.1
+
+open Compress.Flate Compress.Proofs.FlateRefine in
+/-- **flate.Reader: Reset = new (Go-shaped model).** Let `s0` be ANY state of the reader model -
+    a stream read to the end, abandoned half-way (pending output, a copy in progress), failed on
+    corrupt data; any window capacity and any stale window contents; any counters.  After
+    `Reset` onto `bytes`, for every schedule of Read sizes the reader delivers exactly the RFC 1951
+    specification's output for `bytes`, ends with the matching error and has consumed exactly the
+    stream - precisely what a newly constructed reader does (`C01_refines_spec`). -/
+theorem C14_flate_reset_fresh (s0 : Impl.FState) (bytes : List UInt8) (sched : List Nat)
+    (hs : ∀ n, sched.getLast? = some n → 0 < n) :
+    let bits := Bits.ofBytes bytes
+    let r := Impl.run (runFuel bits sched) (Impl.reset s0 bits) sched
+    let spec := Flate.decodeBits bits
+    r.1 = spec.out.toList ∧ r.2.1 = some (errOf spec.verdict) ∧
+    (∀ n, spec.verdict = .ok n → r.2.2.total - r.2.2.bits.length = n) :=
+  reset_refines_spec s0 bytes sched hs
+
+open Compress.Flate Compress.Proofs.FlateRefine in
+/-- the same, stated as indistinguishability: a reset reader and a new reader deliver the same
+    bytes and end with the same error, whatever the two Read schedules. -/
+theorem C14_flate_reset_eq_new (s0 : Impl.FState) (bytes : List UInt8) (s1 s2 : List Nat)
+    (h1 : ∀ n, s1.getLast? = some n → 0 < n) (h2 : ∀ n, s2.getLast? = some n → 0 < n) :
+    let bits := Bits.ofBytes bytes
+    (Impl.run (runFuel bits s1) (Impl.reset s0 bits) s1).1 = (Impl.run (runFuel bits s2) (Impl.init bits) s2).1 ∧
+    (Impl.run (runFuel bits s1) (Impl.reset s0 bits) s1).2.1 = (Impl.run (runFuel bits s2) (Impl.init bits) s2).2.1 :=
+  reset_state_eq_fresh s0 bytes s1 s2 h1 h2
+
+-- non-vacuity: a state with a full, wrapped window, pending output and a latched error is a
+-- legitimate `s0`; the window buffer `Reset` re-slices really carries its stale contents
+example : (Compress.Flate.Impl.reset
+    { bits := [true], total := 9, err := some .corrupted, toRead := [1, 2, 3],
+      dict := { size := 32768, hist := Array.replicate 32768 0xAA, cap := 32768, wrPos := 5, full := true } }
+    []).dict.hist.getD 7 0 = 0xAA := by
+  simp [Compress.Flate.Impl.reset, Compress.Window.Dict.initOver, Compress.Flate.Impl.maxHistSize]
 
 end Compress.Props.C14
